@@ -43,6 +43,10 @@ ASSUMPTIONS = [
 
 
 # ------------------------------------------------------------------------------------------------ catalogue
+# Distinct bodies that all carry the name vns.Item.1.0 (one of them 1.1), wherever they are nested
+ITEMS = [["union", [["uint", 24, "s"], ["uint", 56, "s"]]], ["struct", [["uint", 64, "s"], ["void", 0 + 1], ["void", 7]]], ["struct", [["uint", 32, "s"], ["varr", ["uint", 32, "s"], 1]]], ["union", [["uint", 24, "t"], ["uint", 56, "t"]]]]
+for _i, _d in enumerate(ITEMS):
+    T.NAME_OVERRIDES[T.key(_d)] = ("Item", (1, 1) if _i == 3 else (1, 0))
 def type_catalogue(tier):
     ws = [1, 2, 3, 8, 9, 16, 64] if tier == "quick" else T.W_QUICK
     cat = []
@@ -65,6 +69,10 @@ def type_catalogue(tier):
         cat.append(["named", ["struct", [["uint", 8, "s"]]], "Versioned", v])
     cat.append(["named", ["struct", [["int", 8]]], "Versioned", [1, 0]])
     cat.append(["named", ["union", [["uint", 8, "s"], ["bool"]]], "Versioned", [2, 0]])
+    # same-named, same-version composites with different bodies whose CONTAINERS the approximate equality cannot tell apart
+    # (variable-length arrays: the sets agree in min, max and residues mod 32 although the element sets differ even in their minimum)
+    for it in ITEMS:
+        cat += [it, ["varr", it, 2], ["varr", it, 4], ["farr", it, 2], ["struct", [["varr", it, 2], ["bool"]]], ["union", [["varr", it, 2], ["bool"]]]]
     # variable-length arrays of composed elements with capacities at and beyond the divisor the approximate equality uses (32)
     for e in (["struct", [["uint", 8, "s"]]], ["varr", ["uint", 8, "s"], 2], ["union", [["bool"], ["uint", 16, "s"]]]):
         for c in (31, 32, 33, 64, 255, 1000):
@@ -211,7 +219,13 @@ def must_differ(cat, da, db, a, b) -> bool | None:
         if type(a) is not type(b) or str(a) != str(b):
             return True
         ea, eb = L.lengths(da[1] if da[0] == "named" else da), L.lengths(db[1] if db[0] == "named" else db)
-        return True if ea != eb else None
+        if ea == eb:
+            return None
+        if min(ea) != min(eb) or max(ea) != max(eb):
+            return True
+        # The sets differ but share their extremes: BitLengthSet equality "may only err towards equality", and the equality of
+        # types follows it - inequality is required exactly when the implementation's own set comparison tells the sets apart
+        return True if a.bit_length_set != b.bit_length_set else None
     if cat == "attr":
         if da[0] != db[0]:
             return True  # field vs padding vs constant
